@@ -463,6 +463,9 @@ def gen_gmx2_config(rng):
     fpos = rng.choice([fneg / 2, fneg, fneg * 2, 0.0, 2e-10])
     fee_pos = rng.choice([0.0005, 0.0002, 0.0])
     fee_neg = rng.choice([0.0007, 0.0007, 0.001, fee_pos])
+    # withdrawal fee factors of their own (on chain they are separate keys; the recorded market happens to use equal values)
+    wfee_pos = rng.choice([fee_pos, 0.0003, 0.001, 0.0])
+    wfee_neg = rng.choice([fee_neg, 0.0025, 0.0004, wfee_pos])
     return {"swapImpactFactorPositive": repr(fpos), "swapImpactFactorNegative": repr(fneg),
             "depositFeeFactorForPositiveImpact": repr(fee_pos), "depositFeeFactorForNegativeImpact": repr(fee_neg),
-            "withdrawFeeFactorForPositiveImpact": repr(fee_pos), "withdrawFeeFactorForNegativeImpact": repr(fee_neg)}
+            "withdrawFeeFactorForPositiveImpact": repr(wfee_pos), "withdrawFeeFactorForNegativeImpact": repr(wfee_neg)}
